@@ -23,15 +23,32 @@ class Driver:
         self.path = path
         self.lines = 0
 
-    def ask(self, requests):
-        """requests: list of lists (op, arg1, ...) -> list of response strings."""
+    def ask(self, requests, shard=True):
+        """requests: list of lists (op, arg1, ...) -> list of response strings.
+        Large batches are split into contiguous shards answered by concurrent driver processes (the model is a
+        pure function of each line, so the answers do not depend on the sharding)."""
         if not requests:
             return []
-        text = "".join("\t".join(r) + "\n" for r in requests)
         for r in requests:
             for f in r:
                 if "\t" in f or "\n" in f:
                     raise DriverError("unescaped separator in request %r" % (r,))
+        n = len(requests)
+        nshards = min(16, os.cpu_count() or 1, n // 400) if shard else 1
+        if nshards <= 1:
+            out = self._ask_one(requests)
+        else:
+            from concurrent.futures import ThreadPoolExecutor
+            size = (n + nshards - 1) // nshards
+            chunks = [requests[i:i + size] for i in range(0, n, size)]
+            with ThreadPoolExecutor(len(chunks)) as ex:
+                parts = list(ex.map(self._ask_one, chunks))
+            out = [x for p in parts for x in p]
+        self.lines += n
+        return out
+
+    def _ask_one(self, requests):
+        text = "".join("\t".join(r) + "\n" for r in requests)
         p = subprocess.run([self.path], input=text.encode(), stdout=subprocess.PIPE, stderr=subprocess.PIPE)
         if p.returncode != 0:
             raise DriverError("driver exit %d: %s" % (p.returncode, p.stderr.decode()[-400:]))
@@ -40,7 +57,6 @@ class Driver:
             out.pop()
         if len(out) != len(requests):
             raise DriverError("driver returned %d lines for %d requests" % (len(out), len(requests)))
-        self.lines += len(requests)
         return out
 
     def ask1(self, *req):
@@ -118,6 +134,53 @@ def call(f, *a, **kw):
         return ("ok", f(*a, **kw))
     except Exception as e:  # noqa: BLE001
         return ("err", exc_name(e))
+
+
+class _Slow(Exception):
+    pass
+
+
+def _kill_children():
+    me = os.getpid()
+    for d in os.listdir("/proc"):
+        if d.isdigit():
+            try:
+                with open("/proc/%s/stat" % d) as f:
+                    parts = f.read().rsplit(")", 1)[1].split()
+                if int(parts[1]) == me:
+                    os.kill(int(d), 9)
+            except Exception:  # noqa: BLE001
+                pass
+
+
+def call_timed(f, seconds=None):
+    """`call` with a watchdog for calls that hand a MILP to an external solver process: CBC occasionally needs many
+    minutes on a degenerate colouring instance.  -> ('ok', v) | ('err', name) | ('slow', '') — a slow instance is
+    counted by the harness and never judged.  Only usable in the main thread of a (worker) process."""
+    import signal
+    if seconds is None:
+        seconds = float(os.environ.get("VERIF_SOLVER_PATIENCE", "45"))
+
+    def on_alarm(signum, frame):
+        raise _Slow()
+
+    try:
+        old = signal.signal(signal.SIGALRM, on_alarm)
+    except ValueError:      # not in the main thread
+        return call(f)
+    signal.setitimer(signal.ITIMER_REAL, seconds)
+    try:
+        try:
+            return ("ok", f())
+        finally:
+            signal.setitimer(signal.ITIMER_REAL, 0)
+    except _Slow:
+        _kill_children()
+        return ("slow", "")
+    except Exception as e:  # noqa: BLE001
+        return ("err", exc_name(e))
+    finally:
+        signal.signal(signal.SIGALRM, old)
 
 
 def short_hash(obj):
